@@ -121,7 +121,7 @@ def run_job(job):
             gs0 = G.init(jax.random.PRNGKey(job.get("seed", 0)), starting_eps=run.get("eps_arg", e), starting_step=run.get("step0", 0))
             if job.get("match_async") and h_async is not None:
                 # same initial per-node rng, params and state as the threaded runtime used (C01)
-                a0 = h_async.gs0
+                a0 = eps_async[e % len(eps_async)].get("gs0", h_async.gs0) if eps_async else h_async.gs0   # the episode's own initial graph state
                 gs0 = gs0.replace(rng=a0.rng, params=a0.params, state=a0.state, eps=gs0.eps)
                 gs0 = gs0.replace(inputs=a0.inputs)
             e_eff = int(onp.asarray(gs0.eps))
@@ -137,6 +137,8 @@ def run_job(job):
                 out.setdefault("notes", []).append("record skipped: a node kind is not part of the supergraph")
             if rf is not None:
                 gs_in = G.init_record(gs0, **rf)
+            # rex's horizon is G.max_steps = (number of partitions - 1) runs: the step counter is clipped to the last partition index, so the last
+            # partition cannot be completed by run()/step() (its supervisor step would use the previous partition's slot); "rollout:99" = that horizon
             hist = [f"rollout:{min(int(c.split(':')[1]), G.max_steps - int(onp.asarray(gs0.step)))}" if c.startswith("rollout:") else c for c in run["history"]]
             hist = [c for c in hist if c != "rollout:0"] or ["reset"]
             probes.LOG.clear()
